@@ -37,7 +37,7 @@ fn needs_cluster(raw: u64, cb: u32, has_back: bool) -> bool {
 fn c01_multi_write_mapping() {
     let cb = 16u32;
     let has_back: bool = kani::any();
-    let info = mk_info(cb, 4, 1u64 << 40, 9, Some((9, 1024)), Some((9, 1024)), false, false, has_back);
+    let info = mk_info(cb, 4, 1u64 << 40, 9, Some((9, 1024)), Some((10, 2048)), false, false, has_back);
     let mut env = KEnv::new(info);
     let nf0: bool = kani::any();
     env.mark_need_flush(nf0);
